@@ -32,8 +32,14 @@ def addrName : Nat → String
 
 def isDead (s : State) (id : Nat) : Bool := match getPc s id with | some p => p.dead | none => true
 
+/-- the harness lets one housekeeping pass go by before every action that starts or ends a call
+    (`syncTick`): consecutive actions fall into distinct passes, so their stamps differ -/
+def syncTick (r : Run) : Run :=
+  { r with s := tick r.s (r.clock + tickPeriod), clock := r.clock + tickPeriod }
+
 /-- a call through the Transport: getConn, then the outcome on that connection -/
-def doCall (r : Run) (k : Nat) (addr : Nat) (form : String) (hold : Bool) : Run :=
+def doCall (r0 : Run) (k : Nat) (addr : Nat) (form : String) (hold : Bool) : Run :=
+  let r := syncTick r0
   let (s, res) := getConn r.s addr r.clock
   match res with
   | none => { r with s := s, calls := r.calls ++ [{ k := k, addr := addr, form := form, done := true, err := "dial" }] }
@@ -51,7 +57,8 @@ def doCall (r : Run) (k : Nat) (addr : Nat) (form : String) (hold : Bool) : Run 
         let s := step s (.stamp id)
         { r with s := s, calls := r.calls ++ [{ k := k, addr := addr, form := form, done := true, connId := carried }] }
 
-def finishCall (r : Run) (k : Nat) : Run :=
+def finishCall (r0 : Run) (k : Nat) : Run :=
+  let r := syncTick r0
   match r.calls.find? (fun c => c.k == k && !c.done) with
   | some c =>
     match c.heldOn with
@@ -63,7 +70,8 @@ def finishCall (r : Run) (k : Nat) : Run :=
 
 /-- the server for `addr` goes away: its connections are shut down by their readers and the
     calls waiting on them fail with ErrShutdown (each marks its connection dead and closes it) -/
-def kill (r : Run) (addr : Nat) : Run :=
+def kill (r0 : Run) (addr : Nat) : Run :=
+  let r := syncTick r0
   let s := step r.s (.setUp addr false)
   let ids := (List.range s.nextId).filter fun id => match getPc s id with | some p => p.addr == addr && !p.dead | none => false
   let s := ids.foldl (fun s id => step s (.peerDies id)) s
